@@ -216,6 +216,8 @@ def execute_dual(scenario, tape):
     res.nontrivial = True
     res.state_sigs = [('dual', min(w.sim.switches, 30))]
     res.obligations += 2
+    if w.sim.end_state == 'inconclusive':
+        return res
     if w.sim.end_state != 'done':
         V.append(('C18/dual:%s' % w.sim.end_state, repr(w.sim.end_detail)))
         return res
@@ -387,6 +389,8 @@ def check_login(scenario, w, st, res, ids):
     if st.get('handler_reconnect'):
         res.probes['second-login-from-exception-handler'] = 1
     ob()
+    if sim.end_state == 'inconclusive':
+        return
     if sim.end_state != 'done':
         V.append(('C18/%s' % sim.end_state, repr(sim.end_detail)))
         return
@@ -533,6 +537,8 @@ def execute_wrapper(scenario, tape):
     res.nontrivial = True
     res.state_sigs = [('wrapper', len(scenario['ops']))]
     res.obligations += 4
+    if w.sim.end_state == 'inconclusive':
+        return res
     if w.sim.end_state != 'done':
         V.append(('C18/wrapper:%s' % w.sim.end_state,
                   repr(w.sim.end_detail)))
